@@ -52,6 +52,52 @@ func c10Lens(tier string) []int {
 	return l
 }
 
+// specGUIDs are the GUIDs the UEFI specification (and the library) define: certificate types,
+// signature types, variable vendors. A decoder may treat one of them specially; the layout rules
+// are the same for all of them.
+func specGUIDs() []refesl.GUID {
+	return []refesl.GUID{
+		guidPKCS7, guidRSA256,
+		refesl.MkGUID(0x8BE4DF61, 0x93CA, 0x11d2, [8]byte{0xAA, 0x0D, 0x00, 0xE0, 0x98, 0x03, 0x2B, 0x8C}),
+		refesl.MkGUID(0xd719b2cb, 0x3d3a, 0x4596, [8]byte{0xa3, 0xbc, 0xda, 0xd0, 0x0e, 0x67, 0x65, 0x6f}),
+		refesl.MkGUID(0xc1c41626, 0x504c, 0x4092, [8]byte{0xac, 0xa9, 0x41, 0xf9, 0x36, 0x93, 0x43, 0x28}),
+		refesl.MkGUID(0x3c5766e8, 0x269c, 0x4e34, [8]byte{0xaa, 0x14, 0xed, 0x77, 0x6e, 0x85, 0xb3, 0xb6}),
+		refesl.MkGUID(0xe2b36190, 0x879b, 0x4a3d, [8]byte{0xad, 0x8d, 0xf2, 0xe7, 0xbb, 0xa3, 0x27, 0x84}),
+		refesl.MkGUID(0x826ca512, 0xcf10, 0x4ac9, [8]byte{0xb1, 0x87, 0xbe, 0x01, 0x49, 0x66, 0x31, 0xbd}),
+		refesl.MkGUID(0x67f8444f, 0x8743, 0x48f1, [8]byte{0xa3, 0x28, 0x1e, 0xaa, 0xb8, 0x73, 0x60, 0x80}),
+		refesl.MkGUID(0xa5c059a1, 0x94e4, 0x4aa7, [8]byte{0x87, 0xb5, 0xab, 0x15, 0x5c, 0x2b, 0xf0, 0x72}),
+		refesl.MkGUID(0x0b6e5233, 0xa65c, 0x44c9, [8]byte{0x94, 0x07, 0xd9, 0xab, 0x83, 0xbf, 0xc8, 0xbd}),
+		refesl.MkGUID(0xff3e5307, 0x9fd0, 0x48c9, [8]byte{0x85, 0xf1, 0x8a, 0xd5, 0x6c, 0x70, 0x1e, 0x01}),
+		refesl.MkGUID(0x093e0fae, 0xa6c4, 0x4f50, [8]byte{0x9f, 0x1b, 0xd4, 0x1e, 0x2b, 0x89, 0xc1, 0x9a}),
+		refesl.MkGUID(0x3bd2a492, 0x96c0, 0x4079, [8]byte{0xb4, 0x20, 0xfc, 0xf9, 0x8e, 0xf1, 0x03, 0xed}),
+		refesl.MkGUID(0x446dbf63, 0x2502, 0x4cda, [8]byte{0xbc, 0xfa, 0x24, 0x65, 0xd2, 0xb0, 0xfe, 0x9d}), // X509_SHA384
+		refesl.MkGUID(0xcaa7e4cf, 0x1ee4, 0x4ef7, [8]byte{0x9c, 0x4d, 0x9b, 0x25, 0x7d, 0xb2, 0x4d, 0x21}), // X509_SHA512 (sic)
+		refesl.MkGUID(0x452e8ced, 0xdfff, 0x4b8c, [8]byte{0xae, 0x01, 0x51, 0x18, 0x86, 0x2e, 0x68, 0x2c}),
+		{}, // the zero GUID
+	}
+}
+
+// c10SpecialTimes: values the specification singles out for an EFI_TIME field (unspecified time
+// zone 0x07FF, the zone range ends, the daylight bits, the year range ends, the largest valid
+// value of every field, a leap second). A decoder hands each of them back as it is.
+func c10SpecialTimes() []refauth.Time {
+	base := refauth.Time{Year: 2024, Month: 5, Day: 6, Hour: 7, Minute: 8, Second: 9}
+	var out []refauth.Time
+	for _, tz := range []int16{0x07FF, 1440, -1440, 60, -60, 1} {
+		t := base
+		t.TimeZone = tz
+		out = append(out, t)
+	}
+	for _, d := range []uint8{1, 2, 3, 0x80} {
+		t := base
+		t.Daylight = d
+		out = append(out, t)
+	}
+	out = append(out, refauth.Time{Year: 1900, Month: 1, Day: 1}, refauth.Time{Year: 9999, Month: 12, Day: 31, Hour: 23, Minute: 59, Second: 59, Nanosecond: 999999999},
+		refauth.Time{Year: 2016, Month: 12, Day: 31, Hour: 23, Minute: 59, Second: 60}, refauth.Time{Year: 1970, Month: 1, Day: 1}, refauth.Time{Month: 1, Day: 1})
+	return out
+}
+
 func c10Times() []refauth.Time {
 	return []refauth.Time{
 		{},
@@ -303,6 +349,27 @@ func c10Run(c *hx.Ctx, tier, unit string) {
 						}
 					}
 				}
+			}
+		}
+		// the values the specification singles out for a timestamp field
+		for _, ts := range c10SpecialTimes() {
+			for _, n := range []int{0, 5} {
+				for _, p := range [][]byte{{}, fill(28, 0x77)} {
+					if !c.Next() {
+						continue
+					}
+					c10Auth(c, refauth.Auth2{Time: ts, Length: uint32(24 + n), Revision: 0x0200, Type: 0x0EF1, CertType: guidPKCS7, CertData: fill(n, 0x42)}.Bytes(), p, "synthetic, special timestamp value")
+				}
+			}
+		}
+		// every GUID the specification defines as certificate type x every CertData length 0..600
+		// (the fixed sizes the specification gives some of these types lie inside)
+		for _, g := range specGUIDs() {
+			for n := 0; n <= 600; n++ {
+				if !c.Next() {
+					continue
+				}
+				c10Auth(c, refauth.Auth2{Time: c10Times()[1], Length: uint32(24 + n), Revision: 0x0200, Type: 0x0EF1, CertType: g, CertData: fill(n, 0x42)}.Bytes(), fill(3, 9), "synthetic, specification GUID x length")
 			}
 		}
 	case "wincert":
